@@ -6,6 +6,7 @@
    outcome of the rebuild (skipped by the mtime test, succeeded, failed at any entry of the scan). *)
 From Coq Require Import List NArith ZArith Bool.
 From MV Require Import Bytes GidsModel GidsProofs GidsTimerModel GidsTimerProofs.
+From MV.gen Require GenGids.
 Import ListNotations.
 Local Open Scope Z_scope.
 
@@ -70,6 +71,28 @@ Proof.
   intros interval dostat w0 tr s evs H. apply thread_progress. apply (reach_inv _ _ _ _ _ _ H).
 Qed.
 Print Assumptions C18_gids_thread_progress.
+
+(* a dispatched refresh RETURNS, for every database, so the timer thread goes on to the other services' timers:
+   (1) the scan ends: xgetgrent's ERANGE loop (grow the buffer by the measured factor, ask again) ends for every entry
+   below half the size_t range from every positive buffer size, hence for every such database (entries above the
+   initial buffer size, above 2x, 4x, ... of it included), and the buffer only grows;
+   (2) whatever the scan meets (any fault schedule), scan and commit are enabled one after the other and end in the
+   callback's return with no refresh in progress *)
+Theorem C18_gids_refresh_returns :
+  forall (interval dostat : Z) (w0 : world) (tr : list glabel) (s : gt) (evs : list gev) (tm : ptimer) (snap : gstate),
+  gt_exec VRepo (gt_init interval dostat w0) tr = Some (s, evs) -> x_phase s = PStarted tm snap ->
+  (forall len, (0 < len)%N ->
+     Forall (fun e => (entry_need e <= 2 ^ (GenGids.size_bits - 1))%N) (w_db (x_w s)) ->
+     exists len', scan_buf len (map entry_need (w_db (x_w s))) = Some len' /\ (len <= len')%N) /\
+  (forall sched, exists s1 e1 s2 e2,
+     gt_step VRepo s (XScan sched) = Some (s1, e1) /\ gt_step VRepo s1 XCommit = Some (s2, e2) /\
+     x_phase s2 = PIdle /\ exists sc at_, In (EReturn sc at_) e2).
+Proof.
+  intros interval dostat w0 tr s evs tm snap _ Hp. split.
+  - intros len Hl Hf. apply scan_buf_total; [exact Hl|]. apply Forall_map. exact Hf.
+  - intros sched. eapply refresh_returns. exact Hp.
+Qed.
+Print Assumptions C18_gids_refresh_returns.
 
 (* REFUTED variant of the code (not the code as it is): `return` right after a failed _gids_map_create.
    One transient failure of the group database (EIO at the first entry) and nothing is pending although
